@@ -26,7 +26,7 @@
   All theorems hold for every key type `K` and value type `V` with decidable equality and for
   histories of any length.
 -/
-import ALV.Lemmas.C15Call
+import ALV.Lemmas.C15R4
 import ALV.Common.Audit
 
 namespace ALV.Props.C15
@@ -603,6 +603,239 @@ theorem ofPairs_single_last (pairs : List (K × V)) (k : K) :
   rw [this]
   cases lastValue pairs k <;> rfl
 
+/-! ## round 4: every clause for every key shape and for histories with refused calls at any place -/
+
+/-- **C15.37** `sd[k]` is the last strategy assigned to the name `k` by an assignment that did not raise
+    (not followed by `del sd[k]`), `KeyError` when there is none — for StrategyDict histories of any
+    length with attribute manipulation, default handling and refused operations interleaved; the only
+    operation excluded is the deletion of that very name through its attribute (`del sd.k`, whose effect
+    on the item depends on the state: C15.13) -/
+theorem sd_getitem_last_assigned (ops : List (SOp K V)) (hv : ∀ op ∈ ops, SOp.valid op) (k : K)
+    (hk : ∀ op ∈ ops, SOp.notDelattrOf k op) :
+    getitem (sdRun (SD.empty : SD K V) ops).1.mkd k = sdLastAssigned k ops none := by
+  obtain ⟨h1, _⟩ := sdRun_sim ops sdrep_empty hv
+  rw [h1.rep.getitem_eq]
+  exact sd_last_assigned_spec k ops {} hk
+
+/-- **C15.38** the same for histories of CALLS (key arguments of any shape, refused assignments with the
+    offending item at any position): a refused call assigns nothing -/
+theorem sd_call_getitem_last_assigned (cs : List (SCall K V)) (hv : ∀ c ∈ cs, SOp.valid c.toOp) (k : K)
+    (hk : ∀ c ∈ cs, c ≠ .delattr (some k)) :
+    getitem (sdCallRun (SD.empty : SD K V) cs).1.mkd k = sdLastAssigned k (cs.map SCall.toOp) none := by
+  apply sd_getitem_last_assigned
+  · intro op hop
+    obtain ⟨c, hc, rfl⟩ := List.mem_map.mp hop
+    exact hv c hc
+  · intro op hop
+    obtain ⟨c, hc, rfl⟩ := List.mem_map.mp hop
+    have := hk c hc
+    cases c with
+    | delattr a =>
+      cases a with
+      | none => trivial
+      | some k' => simp only [SCall.toOp, SOp.notDelattrOf]; intro h; subst h; exact this rfl
+    | setitem arg value =>
+      simp only [SCall.toOp]
+      cases classifyNames arg.items <;> cases value <;> trivial
+    | getitem arg =>
+      cases arg with
+      | single i => cases i <;> trivial
+      | tuple is => simp only [SCall.toOp]; cases classifyNames is <;> trivial
+    | delitem arg =>
+      cases arg with
+      | single i => cases i <;> trivial
+      | tuple is => simp only [SCall.toOp]; cases classifyNames is <;> trivial
+    | contains arg =>
+      cases arg with
+      | single i => cases i <;> trivial
+      | tuple is => simp only [SCall.toOp]; cases classifyNames is <;> trivial
+    | dictGet arg =>
+      cases arg with
+      | single i => cases i <;> trivial
+      | tuple is => simp only [SCall.toOp]; cases classifyNames is <;> trivial
+    | _ => trivial
+
+/-- **C15.39** "deleting a missing key raises KeyError" for EVERY key shape, MultiKeyDict: after any
+    history, `del d[arg]` with a hashable argument that is not a bound single key — an unbound key, or a
+    tuple of ANY length (0, 1, 2, …) whatever its items — raises `KeyError` (never the `TypeError` of an
+    unhashable operand) and changes nothing; `key2keys` alike -/
+theorem del_missing_any_shape (ops : List (Op K V)) (hv : ∀ op ∈ ops, Op.valid op) (arg : KeyArg K)
+    (hh : KeyItem.unhashable ∉ arg.items) :
+    let s := (run (St.empty : St K V) ops).1
+    ¬ KeyArg.boundIn s arg →
+      callStep s (.delitem arg) = (s, .keyError) ∧ callStep s (.key2keys arg) = (s, .keyError) := by
+  intro s hb
+  cases arg with
+  | single i =>
+    cases i with
+    | unhashable => simp [KeyArg.items] at hh
+    | ok k =>
+      have hb : getitem s k = none := by
+        cases hg : getitem s k with
+        | none => rfl
+        | some _ => exact absurd (by simp [KeyArg.boundIn, hg]) hb
+      have h : Rep s (specRun ([] : Log K V) ops).1 := (run_sim ops rep_empty hv).1
+      refine ⟨(del_missing_keyError ops hv k).1 hb, ?_⟩
+      show (s, Res.ofKeys (key2keys s k)) = _
+      rw [h.key2keys_eq, specKey2keys, ← h.getitem_eq, hb]; rfl
+  | tuple is =>
+    obtain ⟨ks, hks⟩ : ∃ ks, allOk is = some ks := by
+      cases h : allOk is with
+      | some ks => exact ⟨ks, rfl⟩
+      | none => exact absurd (allOk_eq_none_iff.mp h) hh
+    simp [callStep, Call.toOp, hks, step]
+
+/-- **C15.40** … and StrategyDict: `del sd[arg]` with an argument that holds no unhashable item and is
+    not a bound single name — an unbound name, a hashable non-string, a tuple of ANY length (`del sd[()]`,
+    `del sd["a", "b"]` with both names bound, a tuple with a non-string) — raises `KeyError` with the
+    maps, the attributes and the default untouched -/
+theorem sd_del_missing_any_shape (ops : List (SOp K V)) (hv : ∀ op ∈ ops, SOp.valid op) (arg : SKeyArg K)
+    (hh : SKeyItem.unhashable ∉ arg.items) :
+    let s := (sdRun (SD.empty : SD K V) ops).1
+    ¬ SKeyArg.boundIn s arg → sdCallStep s (.delitem arg) = (s, .keyError) := by
+  intro s hb
+  cases arg with
+  | single i =>
+    cases i with
+    | unhashable => simp [SKeyArg.items] at hh
+    | nonStr => rfl
+    | ok k =>
+      have hb : getitem s.mkd k = none := by
+        cases hg : getitem s.mkd k with
+        | none => rfl
+        | some _ => exact absurd (by simp [SKeyArg.boundIn, hg]) hb
+      exact (default_on_del ops hv k).1 hb
+  | tuple is =>
+    have : classifyNames is ≠ .hasUnhashable := fun h => hh (classifyNames_hasUnhashable_iff.mp h)
+    simp only [sdCallStep, SCall.toOp]
+    cases hc : classifyNames is with
+    | hasUnhashable => exact absurd hc this
+    | names _ => rfl
+    | hasNonStr => rfl
+
+/-- **C15.40b** a deletion that does NOT raise `KeyError` is the deletion of a bound single name
+    (converse of C15.40; an unhashable item gives `TypeError`) -/
+theorem sd_del_bound_name (ops : List (SOp K V)) (hv : ∀ op ∈ ops, SOp.valid op) (k : K) (w : V) :
+    let s := (sdRun (SD.empty : SD K V) ops).1
+    getitem s.mkd k = some w →
+      (sdCallStep s (.delitem (.single (.ok k)))).2 = .done ∧
+      getitem (sdCallStep s (.delitem (.single (.ok k)))).1.mkd k = none := by
+  intro s hk
+  obtain ⟨h1, _⟩ := sdRun_sim ops sdrep_empty hv
+  rcases sdDelitem_sim h1 k with ⟨hl, _, _⟩ | ⟨s', g', hl, hd, hg, hrep⟩
+  · rw [← h1.rep.getitem_eq] at hl; rw [hk] at hl; cases hl
+  · have hs : sdCallStep s (.delitem (.single (.ok k))) = (s', .done) := by
+      show sdStep (sdRun (SD.empty : SD K V) ops).1 (.del k) = _
+      simp only [sdStep, hd]
+    rw [hs]
+    refine ⟨rfl, ?_⟩
+    have := hrep.rep.getitem_eq k
+    rw [this, sdSpecDel_log hg k]; simp
+
+/-- **C15.41** a refused assignment ANYWHERE in a history, with the offending item at ANY position of the
+    key tuple (a stored name in front of a non-string: `sd["a", 3] = g`; an unhashable name; an
+    unhashable strategy): the call raises, and the history runs as if it had never been issued — every
+    later result and the final maps, attributes and default are those of the history without it; in
+    particular `sd["a"]`, `sd.a`, the default and `len` are untouched -/
+theorem sd_refused_call_leaves_no_trace (s : SD K V) (pre rest : List (SCall K V)) (arg : SKeyArg K)
+    (value : Option V) (h : (∀ ks : List K, arg.items ≠ ks.map .ok) ∨ value = none) (k : K) :
+    let c : SCall K V := .setitem arg value
+    let s1 := (sdCallRun s pre).1
+    sdCallStep s1 c = (s1, .rejected) ∧
+    (sdCallRun s (pre ++ c :: rest)).1 = (sdCallRun s (pre ++ rest)).1 ∧
+    (sdCallRun s (pre ++ c :: rest)).2 = (sdCallRun s pre).2 ++ .rejected :: (sdCallRun s1 rest).2 ∧
+    getitem (sdCallStep s1 c).1.mkd k = getitem s1.mkd k ∧
+    sdGetattr (sdCallStep s1 c).1 (some k) = sdGetattr s1 (some k) ∧
+    sdDefault (sdCallStep s1 c).1 = sdDefault s1 ∧ len (sdCallStep s1 c).1.mkd = len s1.mkd := by
+  intro c s1
+  have hc : sdCallStep s1 c = (s1, .rejected) := (sd_key_argument s1 arg value).2 h
+  have hc' : sdStep (sdRun s (pre.map SCall.toOp)).1 c.toOp = ((sdRun s (pre.map SCall.toOp)).1, .rejected) := hc
+  refine ⟨hc, ?_, ?_, by rw [hc], by rw [hc], by rw [hc], by rw [hc]⟩
+  · simp only [sdCallRun, List.map_append, List.map_cons, sdRun_append, sdRun, hc']
+  · simp only [sdCallRun, List.map_append, List.map_cons, sdRun_append, sdRun, hc']
+    rfl
+
+omit [DecidableEq K] in
+/-- **C15.41b** the hypothesis of C15.41 in the words of the caller: a non-string or an unhashable item
+    SOMEWHERE in the key argument (whatever stands in front of it or behind it) -/
+theorem sd_bad_item_anywhere {arg : SKeyArg K} (h : SKeyItem.nonStr ∈ arg.items ∨ SKeyItem.unhashable ∈ arg.items) :
+    ∀ ks : List K, arg.items ≠ ks.map SKeyItem.ok := by
+  intro ks he
+  rw [he] at h
+  rcases h with h | h <;> simp at h
+
+/-- **C15.42** every name is exposed as an attribute equal to the item after any history of CALLS —
+    refused assignments included — that does not assign name attributes by hand -/
+theorem sd_call_attr_equals_item (cs : List (SCall K V)) (hv : ∀ c ∈ cs, SOp.valid c.toOp)
+    (hn : ∀ c ∈ cs, SOp.noSetattr c.toOp) (k : K) :
+    sdGetattr (sdCallRun (SD.empty : SD K V) cs).1 (some k)
+      = getitem (sdCallRun (SD.empty : SD K V) cs).1.mkd k := by
+  apply attr_equals_item
+  · intro op hop; obtain ⟨c, hc, rfl⟩ := List.mem_map.mp hop; exact hv c hc
+  · intro op hop; obtain ⟨c, hc, rfl⟩ := List.mem_map.mp hop; exact hn c hc
+
+/-- **C15.43** the default is the first strategy stored, for histories of CALLS: after `sd[keys0] = v0`
+    on a new StrategyDict, whatever calls follow — refused ones at any place — that neither re-assign
+    nor delete the name `k0 ∈ keys0` nor touch `default` by hand, the default (and what a call of the
+    dict calls) is `v0` -/
+theorem sd_call_default_first_stored (keys0 : List K) (v0 : V) (k0 : K) (hk0 : k0 ∈ keys0)
+    (cs : List (SCall K V)) (hv : ∀ c ∈ cs, SOp.valid c.toOp) (hkeep : ∀ c ∈ cs, SOp.keepsName k0 c.toOp) :
+    let s := (sdCallRun (SD.empty : SD K V) (.setitem (.tuple (keys0.map .ok)) (some v0) :: cs)).1
+    sdDefault s = some v0 ∧ (sdStep s .call).2 = .val v0 ∧ getitem s.mkd k0 = some v0 := by
+  have h := default_is_first_stored keys0 v0 k0 hk0 (cs.map SCall.toOp)
+    (by intro op hop; obtain ⟨c, hc, rfl⟩ := List.mem_map.mp hop; exact hv c hc)
+    (by intro op hop; obtain ⟨c, hc, rfl⟩ := List.mem_map.mp hop; exact hkeep c hc)
+  simpa only [sdCallRun, List.map_cons, SCall.toOp, SKeyArg.items, classifyNames_map_ok] using h
+
+
+/-! ## outside the property, as coded: the NAME `default` (why the assumption "names differ from `default`" is needed) -/
+
+/-- **C15.44** `sd["default"] = v` (as coded, `dn` = the key spelled `"default"`): whenever it succeeds, `v` IS
+    the default afterwards — whatever strategy was stored first — because the attribute exposing the name is
+    the instance's `default`; and while the name is not stored, deleting it is the ordinary `KeyError` -/
+theorem default_name_becomes_default (s : SD K V) (dn : K) (v : V) :
+    ((sdSetDefaultName s dn v).2 = .done → sdDefault (sdSetDefaultName s dn v).1 = some v ∧
+        sdGetattr (sdSetDefaultName s dn v).1 none = some v) ∧
+    (key2keys s.mkd dn = none → sdDelDefaultName s dn = (s, .keyError)) := by
+  constructor
+  · intro h
+    unfold sdSetDefaultName at h ⊢
+    generalize sdDelDefaultName s dn = r at h ⊢
+    obtain ⟨s1, r1⟩ := r
+    cases r1 <;> first
+      | (simp only at h; cases h)
+      | (simp only at h ⊢
+         cases hs : setitem s1.mkd [dn] v with
+         | none => rw [hs] at h; simp only at h; cases h
+         | some mk' => simp only [sdDefault, sdGetattr, dget_dset]; simp)
+  · intro h
+    simp only [sdDelDefaultName, h]
+
+/-- **C15.45** … so with that name the clauses of the property fail (the model follows the code, the tie
+    runs it — entry `sdn`): after `sd["a"] = 10; sd["default"] = 20` the default is 20, not the first
+    strategy stored, although `a` still holds it (cf. C15.17); `del sd["default"]` then raises
+    `AttributeError` AFTER the item and the default were removed (cf. C15.29: in the property's domain an
+    operation that raises leaves no trace); and assigning the name a second time fails half-way the same way -/
+theorem default_name_breaks_the_clauses :
+    let s0 := (sdRun (SD.empty : SD Nat Nat) [.set [1] 10]).1
+    let s1 := (sdSetDefaultName s0 9 20).1
+    (sdSetDefaultName s0 9 20).2 = .done ∧ sdDefault s0 = some 10 ∧ sdDefault s1 = some 20 ∧
+      getitem s1.mkd 1 = some 10 ∧ getitem s1.mkd 9 = some 20 ∧
+    (sdDelDefaultName s1 9).2 = .attrError ∧ getitem (sdDelDefaultName s1 9).1.mkd 9 = none ∧
+      sdDefault (sdDelDefaultName s1 9).1 = none ∧ len (sdDelDefaultName s1 9).1.mkd = 1 ∧
+    (sdSetDefaultName s1 9 30).2 = .attrError ∧ getitem (sdSetDefaultName s1 9 30).1.mkd 9 = none ∧
+    (sdDelattrDefaultName s1 9).2 = .attrError ∧ getitem (sdDelattrDefaultName s1 9).1.mkd 9 = none := by
+  decide
+
+/-- **C15.46** … and a default that keeps another name is still dropped: `sd["default", …]`-free witness
+    `sd["default"] = 20; sd["a"] = 20` (one strategy, names `default` and `a`), then `del sd["default"]`
+    succeeds and removes the default although the strategy keeps the name `a` (cf. C15.19) -/
+theorem default_name_drops_default_that_keeps_a_name :
+    let s := (sdStep (sdSetDefaultName (SD.empty : SD Nat Nat) 9 20).1 (.set [1] 20)).1
+    value2keys s.mkd 20 = [9, 1] ∧ sdDefault s = some 20 ∧ (sdDelDefaultName s 9).2 = .done ∧
+      getitem (sdDelDefaultName s 9).1.mkd 1 = some 20 ∧ sdDefault (sdDelDefaultName s 9).1 = none := by
+  decide
+
 /-! ## non-vacuity: the hypotheses are satisfiable and the statements speak about real histories -/
 
 /-- the docstring example of `MultiKeyDict` -/
@@ -711,6 +944,61 @@ example : (ofPairs ([([1], 5), ([2], 6), ([1], 6), ([3, 4], 5)] : List (List Nat
 example : ∀ e ∈ ([([1], 5), ([2], 6), ([1], 6), ([3, 4], 5)] : List (List Nat × Nat)), e.1 ≠ [] := by decide
 example : lastValue ([(1, 5), (2, 6), (1, 6)] : List (Nat × Nat)) 1 = some 6 ∧
     getitem (ofPairs ([(1, 5), (2, 6), (1, 6)].map fun e : Nat × Nat => ([e.1], e.2))) 1 = some 6 := by decide
+
+/-- C15.37 / C15.38: a history with attribute manipulation, a refused assignment to the name itself and a
+    deletion through ANOTHER name's attribute satisfies the hypothesis; the hypothesis is needed —
+    `del sd.k` removes the item `k` (when attribute and item are equal) -/
+example : ∀ op ∈ ([.set [1, 2] 10, .setattr (some 1) 7, .delattr (some 2), .setRefused [1], .delattr none]
+    : List (SOp Nat Nat)), SOp.notDelattrOf 1 op := by
+  intro op h; simp at h; rcases h with rfl | rfl | rfl | rfl | rfl <;> simp [SOp.notDelattrOf]
+example : getitem (sdRun (SD.empty : SD Nat Nat)
+      [.set [1, 2] 10, .setattr (some 1) 7, .delattr (some 2), .setRefused [1], .delattr none]).1.mkd 1 = some 10 ∧
+    sdLastAssigned 1 ([.set [1, 2] 10, .setattr (some 1) 7, .delattr (some 2), .setRefused [1], .delattr none]
+      : List (SOp Nat Nat)) none = some 10 := by decide
+example : getitem (sdRun (SD.empty : SD Nat Nat) [.set [1] 10, .delattr (some 1)]).1.mkd 1 = none ∧
+    sdLastAssigned 1 ([.set [1] 10, .delattr (some 1)] : List (SOp Nat Nat)) none = some 10 := by decide
+/-- C15.39 / C15.40: arguments that are not bound single keys, of every shape (both names of the tuple
+    are bound, the empty tuple, a 1-tuple of a bound name, a non-string inside), and the results on the
+    model: `KeyError` every time, the dict as it was -/
+example : ¬ KeyArg.boundIn (run (St.empty : St Nat Nat) [.set [1, 2] 3]).1 (.tuple [.ok 1, .ok 2]) ∧
+    ¬ KeyArg.boundIn (run (St.empty : St Nat Nat) [.set [1, 2] 3]).1 (.tuple [.ok 1]) ∧
+    ¬ KeyArg.boundIn (run (St.empty : St Nat Nat) [.set [1, 2] 3]).1 (.single (.ok 7)) := by
+  refine ⟨fun h => h, fun h => h, ?_⟩
+  have : getitem (run (St.empty : St Nat Nat) [.set [1, 2] 3]).1 7 = none := by decide
+  simp [KeyArg.boundIn, this]
+example : KeyArg.boundIn (run (St.empty : St Nat Nat) [.set [1, 2] 3]).1 (.single (.ok 2)) := by
+  have : getitem (run (St.empty : St Nat Nat) [.set [1, 2] 3]).1 2 = some 3 := by decide
+  simp [KeyArg.boundIn, this]
+example : SKeyItem.unhashable ∉ (SKeyArg.tuple [.ok 1, .nonStr, .ok (2 : Nat)]).items := by simp [SKeyArg.items]
+example : (sdCallRun (SD.empty : SD Nat Nat)
+    [.setitem (.tuple [.ok 1, .ok 2]) (some 10), .delitem (.tuple []), .delitem (.tuple [.ok 1]),
+     .delitem (.tuple [.ok 1, .ok 2]), .delitem (.tuple [.ok 2, .nonStr, .ok 1]), .delitem (.single (.ok 7)),
+     .delitem (.tuple [.ok 1, .unhashable]), .len, .getitem (.single (.ok 1)), .delitem (.single (.ok 1)),
+     .getitem (.single (.ok 1)), .getitem (.single (.ok 2))]).2
+    = [.done, .keyError, .keyError, .keyError, .keyError, .keyError, .rejected, .num 1, .val 10, .done,
+       .keyError, .val 10] := by decide
+/-- C15.41: `sd["a"] = f; sd["b"] = g; sd["a", 3] = h` (a stored name in front of the non-string) and
+    `sd["b", <unhashable>, "a"] = h` in the middle of a history: refused, and `sd["a"]`, `sd.a`, the default
+    and `len` answer as before -/
+example : (sdCallRun (SD.empty : SD Nat Nat)
+    [.setitem (.single (.ok 1)) (some 10), .setitem (.single (.ok 2)) (some 20),
+     .setitem (.tuple [.ok 1, .nonStr]) (some 30), .getitem (.single (.ok 1)), .getattr 1, .default, .len,
+     .setitem (.tuple [.ok 2, .unhashable, .ok 1]) (some 30), .getitem (.single (.ok 2)), .getattr 2, .call, .len]).2
+    = [.done, .done, .rejected, .val 10, .val 10, .val 10, .num 2, .rejected, .val 20, .val 20, .val 10, .num 2] := by
+  decide
+example : SKeyItem.nonStr ∈ (SKeyArg.tuple [.ok (1 : Nat), .nonStr]).items ∨
+    SKeyItem.unhashable ∈ (SKeyArg.tuple [.ok (1 : Nat), .nonStr]).items := by simp [SKeyArg.items]
+/-- C15.42 / C15.43: call histories with refused assignments satisfy the hypotheses -/
+example : ∀ c ∈ ([.setitem (.tuple [.ok 5, .nonStr]) (some 1), .delitem (.tuple []), .setitem (.single (.ok 5)) none,
+    .setitem (.tuple [.ok 5, .ok 6]) (some 2), .delattr (some 5)] : List (SCall Nat Nat)),
+    SOp.valid c.toOp ∧ SOp.noSetattr c.toOp ∧ SOp.keepsName 2 c.toOp := by
+  intro c h; simp at h
+  rcases h with rfl | rfl | rfl | rfl | rfl <;>
+    simp [SCall.toOp, SKeyArg.items, classifyNames, namesBefore, SOp.valid, SOp.noSetattr, SOp.keepsName]
+/-- C15.44: both hypotheses are satisfiable (the first one also on a state where the name is stored under
+    another default: C15.45) -/
+example : key2keys (sdRun (SD.empty : SD Nat Nat) [.set [1] 10]).1.mkd 9 = none ∧
+    (sdSetDefaultName (sdRun (SD.empty : SD Nat Nat) [.set [1] 10]).1 9 20).2 = .done := by decide
 
 end ALV.Props.C15
 
